@@ -301,7 +301,15 @@ class DAGAnalyzer(ASTTemplate):
             self.visit(node.left)
             self.is_dataset = False
             self.visit(node.right)
-        elif node.op == AS or node.op == TO:
+        elif node.op == AS:
+            # The operand of `as` is a dataset expression, never an alias: a dataset whose name
+            # equals an alias declared earlier in the same join (`inner_join(A as d1, d1 as d2)`)
+            # is still an input of this statement.
+            declared, self.alias = self.alias, set()
+            self.visit(node.left)
+            self.alias = declared
+            self.alias.add(node.right.value)
+        elif node.op == TO:
             self.visit(node.left)
             self.alias.add(node.right.value)
         else:
